@@ -79,7 +79,7 @@ TRP_Table(O, q) ==
   IF ~NodeAt(P, q.u, s)
   THEN { <<"C13_b_empty_when_absent_at_start", St(q.res = "ok" /\ q.paths = <<>>)>> }
   ELSE IF ~ValidWindow(ids, s, e)
-  THEN { <<"C15_f_invalid_window", St(q.res = "ValueError")>> }
+  THEN {}     \* C12 / C13 quantify over windows inside the snapshot range; C15 states ValueError for temporal_dag only
   ELSE IF q.res # "ok" THEN { <<"C12_x_no_exception", "fail">>, <<"C13_x_no_exception", "fail">> }
   ELSE
   LET all == AllPaths(P, ids, q.u, q.v, s, e)
